@@ -632,6 +632,19 @@ func installLibStubs(e *Engine) {
 		e.putFile(st, path, fileState{exists: True(), ln: ln, data: arr})
 		return nil
 	}
+	S["verif:verifCrashAfter"] = func(e *Engine, st *State, c *callInfo, a []Value) Value {
+		cnt := e.ghostTerm(st, "disk.events", func() *Term { return BVu(0, 64) })
+		st.ghost["disk.crashAt"] = Add(cnt, Resize(argTerm(a[0]), 64, true))
+		e.noteAssumption("crash model: the process dies after a chosen number of completed disk system calls (open/create/truncate and each write are separate events; a single write is atomic; nothing is reordered or torn); memory is discarded and the loaders run on what reached the disk")
+		return nil
+	}
+	S["verif:verifCrashEnd"] = func(e *Engine, st *State, c *callInfo, a []Value) Value {
+		delete(st.ghost, "disk.crashAt")
+		return nil
+	}
+	S["verif:verifDiskEvents"] = func(e *Engine, st *State, c *callInfo, a []Value) Value {
+		return e.ghostTerm(st, "disk.events", func() *Term { return BVu(0, 64) })
+	}
 	S["verif:verifFileAbsent"] = func(e *Engine, st *State, c *callInfo, a []Value) Value {
 		path := mustConcreteStr(a[0], "verifFileAbsent path")
 		e.putFile(st, path, fileState{exists: False(), ln: BVu(0, 64), elems: &ArrayV{T: types.Typ[types.Uint8]}})
